@@ -399,7 +399,12 @@ func TestC20Exhaustive(t *testing.T) {
 
 func TestC20Random(t *testing.T) {
 	rec := hx.NewRecorder(t)
-	rapid.Check(t, func(t *rapid.T) {
+	rapid.Check(t, propC20RandomWith(rec))
+}
+
+// propC20RandomWith is the property; rec may be nil (fuzzing).
+func propC20RandomWith(rec *hx.Recorder) func(*rapid.T) {
+	return func(t *rapid.T) {
 		size := rapid.SampledFrom([]int{0, 1, 8, 9, 16, 100, 512, 1000, 1024, 1025, 2000}).Draw(t, "size")
 		r := kcp.NewRingBuffer[int](size)
 		m := &ringModel{}
@@ -480,5 +485,7 @@ func TestC20Random(t *testing.T) {
 		if rec.WantSample() {
 			rec.Sample(map[string]any{"size": size, "nops": nops, "first_ops": trace, "classes": cl})
 		}
-	})
+	}
 }
+
+var propC20Random = propC20RandomWith(nil)
